@@ -15,8 +15,8 @@ POOL = {
 }
 CATCHALL = ["plaintext", "unix_disabled"]
 GLOBAL_VARY_KEYS = ["vary_rounds", "all__vary_rounds"]
-#: values that survive the two-decimal INI rendering exactly; 1.0 / "100%" sit on the float/int boundary of the renderer
-GLOBAL_VARY_VALUES = [0.1, "10%", 0.25, 0.5, 1.0, "100%", "1.0", 0, 2, "3"]
+#: 1.0 / "100%" sit on the float/int boundary of the INI renderer; 0.125, 0.3333, 0.995 need more than its two pretty decimals
+GLOBAL_VARY_VALUES = [0.1, "10%", 0.25, 0.5, 1.0, "100%", "1.0", 0, 2, "3", 0.125, "12.5%", 0.3333, 0.07, 0.995, "7%"]
 CATS = ["admin", "staff"]
 
 
@@ -58,7 +58,7 @@ def rounds_options(draw, scheme, allow_beyond=True):
         if allow_beyond and draw(st.integers(0, 12)) == 0 and "min_rounds" in out:
             out["min_rounds"] = h.min_rounds - 1  # clamped to the hard minimum
     if draw(st.integers(0, 9)) == 0:
-        out["vary_rounds"] = draw(st.sampled_from([0, 1, 5, "10%", 0.1, "3"]))
+        out["vary_rounds"] = draw(st.sampled_from([0, 1, 5, "10%", 0.1, "3", 0.125, "7%", 0.3333]))
     if draw(st.integers(0, 5)) == 0:
         out = {k: (str(v) if isinstance(v, int) else v) for k, v in out.items()}
     return out
